@@ -38,8 +38,8 @@ PROPS = {
     "C17": dict(tiers(qr=300, qb=50, tr=6000, tb=900, timeout=300),
                 level="exploration",
                 level_text="Same node world (uploads, real downloads through discovery + retrieval, local reads under a file context, deletes, evictions, restarts with InitChunkInfo from the state store): at every quiescent barrier every availability record the node keeps for itself is compared bit by bit with the local store (bit i set => i-th data chunk in protocol order stored; all set => all stored), and after a delete no in-memory or persisted availability / discovery / source record of the file may remain.",
-                rule="As C12; the protocol order of data chunks is taken from GetChunkHashes on a node holding the whole file.",
-                probes=["c17_record_checked", "c17_bit_checked", "c17_full", "c17_deleted_checked", "cached", "restart"],
+                rule="As C12; the protocol order of data chunks is taken from GetChunkHashes on a node holding the whole file. In a third of the runs one or two files are directories (tar collections of 2-3 members) and downloads fetch single members, mostly starting with a member that is not the first.",
+                probes=["c17_record_checked", "c17_bit_checked", "c17_full", "c17_deleted_checked", "cached", "restart", "dir_member_downloaded"],
                 assumptions=["data-chunk order = first occurrence in traversal.GetChunkHashes (trusted as the protocol's definition)"]),
     "C16": dict(tiers(qr=300, qb=50, tr=6000, tb=900, timeout=300),
                 level="exploration",
